@@ -50,8 +50,8 @@ class AQTTargetGateset(cirq.TwoQubitCompilationTargetGateset):
         # unwrap tagged and circuit operations to get the actual operation
         opu = op.untagged
         opu = (
-            next(opu.circuit.all_operations()).untagged
-            if isinstance(opu, cirq.CircuitOperation) and len(opu.circuit) == 1
+            next(opu.mapped_circuit().all_operations()).untagged
+            if isinstance(opu, cirq.CircuitOperation) and len(opu.mapped_circuit()) == 1
             else opu
         )
         if isinstance(opu.gate, cirq.HPowGate) and opu.gate.exponent == 1:
